@@ -244,6 +244,8 @@ func sigWrite(w *Write) string { return w.Verb + "-" + w.Key.GVR.Resource + "-by
 // release must not hide one that happens in a plain release).
 func sigContext(m MonState) string {
 	switch {
+	case m["ctx.supersededKnob"] != "":
+		return "after-superseded-batchrelease-opened-the-knob"
 	case requested(m, "release3"):
 		return "after-supersession"
 	case requested(m, "rollback"):
@@ -264,6 +266,16 @@ func (RollbackOrderMonitor) ID() string { return "C10" }
 
 func (RollbackOrderMonitor) OnWrite(x *Ctx, w *Write) {
 	sc := x.Sc
+	// supersession restarts from step one: the BatchRelease of the superseded release must not open the update
+	// knob for the new revision
+	if w.Actor == "B" && w.Verb == "update" && !w.Status && w.Key.GVR.Resource == workloadResource(sc) && w.Before != nil && w.After != nil &&
+		exposureOf(sc, w.After) > exposureOf(sc, w.Before) && exposureOf(sc, w.Before) >= 0 {
+		if v := ViewWorkload(x.W, sc); v != nil && x.Mon["ctx.brRev"] != "" && x.Mon["ctx.brRev"] != shortHash(v.UpdateRev) {
+			x.Count("C10 knob writes by a superseded BatchRelease judged")
+			x.Violate("C10/supersede/superseded-batchrelease-opens-knob/"+sc.Kind+"-"+sc.Style, fmt.Sprintf("the workload's template changed to revision %s while the BatchRelease created for revision %s is still progressing; instead of standing still until the Rollout restarts from step one, that BatchRelease adopted the new revision and opened the update knob for it (%s: %d -> %d pods)",
+				shortHash(v.UpdateRev), x.Mon["ctx.brRev"], v.KnobText, exposureOf(sc, w.Before), exposureOf(sc, w.After)))
+		}
+	}
 	if sc.Traffic == "" || !requested(x.Mon, "rollback", "release3") || !isController(w.Actor) {
 		return
 	}
